@@ -132,6 +132,14 @@ def r2(ctx):
             n_ = peel(n_["recv"], methods=False)
         order.reverse()
         ok = ok and order and order[0] == "&"
+    # no path of the escaper may hand the text back unescaped
+    if esc:
+        eh = ctx.prog.hir(esc)
+        for y in walk_exprs(eh):
+            if y["k"] == "Ret" and "e" in y and not any(c["k"] == "MCall" and c["m"] == "replace" for c in walk_exprs(y["e"])):
+                ok = False
+                ctx.violation("escape/html/bypass", ctx.where(esc, y),
+                              "the HTML escaper returns `%s` on some path without applying the entity replacements" % render(y["e"])[:60])
     ctx.obligation(ok)
     ctx.covered("HTML cell escaping (template and replacement table)", 1 + len(covered), distinct_keys=sorted(x[0] for x in covered),
                 sample={"template": tm, "escapes": sorted(covered)})
